@@ -358,6 +358,14 @@ def _build_pm(ctx, d, r, shape):
             kw['plane_orientation'] = hd.PlaneOrientationSequence('SLIDE', [float(v) for v in src[0].ImageOrientationSlide])
         else:
             kw['plane_orientation'] = hd.PlaneOrientationSequence('PATIENT', [1.0, 0.0, 0.0, 0.0, 1.0, 0.0])
+    # SPELLING of the enum-valued arguments (str or enum member), a function of the case index
+    from highdicom.pm import DerivedPixelContrastValues, ImageFlavorValues
+    sp = d['idx'] % 4
+    if sp in (1, 3):
+        kw['content_qualification'] = [hd.ContentQualificationValues.RESEARCH, 'SERVICE'][sp // 2]
+    if sp in (2, 3):
+        kw['image_flavor'] = [ImageFlavorValues.VOLUME, 'WHOLE_BODY'][d['idx'] // 4 % 2]
+        kw['derived_pixel_contrast'] = ['QUANTITY', DerivedPixelContrastValues.QUANTITY][d['idx'] // 4 % 2]
     st, pm = _try(ParametricMap, src, a, hd.UID(), 1, hd.UID(), 1, 'm', 'mm', '1', 'sn', False, maps,
                   r.choice([0.5, 128.0]), r.choice([1.0, 256.0]), transfer_syntax_uid=d['ts'], **kw)
     return a, desc, pos, cs, st, pm
@@ -750,14 +758,25 @@ def _check_sc(ctx, label, dt, ba, shape, pi, ts, cs, idx, layout='c', big_values
             kw['issuer_of_container_identifier'] = hd.IssuerOfIdentifier('iss')
     if idx % 3 == 0:
         kw['pixel_spacing'] = (0.5, 0.25)
+    # SPELLING of the enum-valued arguments (guide 3a): photometric interpretation and coordinate system as str or as
+    # enum member, a function of the case index (all four combinations occur in every stream)
+    spell = ('rr', 'mm', 'rm', 'mr')[idx % 4]
+    pi_s, cs_s = pi, cs
+    if spell[0] == 'm':
+        try:
+            pi_s = hd.PhotometricInterpretationValues(pi)
+        except ValueError:
+            pass
+    if spell[1] == 'm':
+        cs_s = hd.CoordinateSystemNames(cs)
     if label == 'random' and idx % 3 == 1:
         from gen.images import base_dataset
         ref = base_dataset('1.2.840.10008.5.1.4.1.1.2', EXPLICIT)
-        st, sc = _try(SCImage.from_ref_dataset, ref, a, pi, ba, cs, hd.UID(), 1, hd.UID(), 1, 'm', transfer_syntax_uid=ts, **kw)
+        st, sc = _try(SCImage.from_ref_dataset, ref, a, pi_s, ba, cs_s, hd.UID(), 1, hd.UID(), 1, 'm', transfer_syntax_uid=ts, **kw)
     else:
-        st, sc = _try(SCImage, a, pi, ba, cs, hd.UID(), hd.UID(), 1, hd.UID(), 1, 'm', transfer_syntax_uid=ts, **kw)
+        st, sc = _try(SCImage, a, pi_s, ba, cs_s, hd.UID(), hd.UID(), 1, hd.UID(), 1, 'm', transfer_syntax_uid=ts, **kw)
     case = {'kind': 'sc', 'label': label, 'dtype': dt, 'ba': ba, 'shape': list(shape), 'pi': pi, 'ts': ts, 'cs': cs, 'idx': idx,
-            'layout': layout, 'big_values': big_values}
+            'layout': layout, 'big_values': big_values, 'spell': spell}
     valid = _sc_valid(dt, ba, shape, pi, ts)
     fits = not (ba == 12 and dt == 'uint16' and a.size and int(a.max()) >= 4096)
     outcome = 'accepted' if st == 'ok' else 'refused'
@@ -765,7 +784,7 @@ def _check_sc(ctx, label, dt, ba, shape, pi, ts, cs, idx, layout='c', big_values
     if st == 'ok' and a.size > 1 and a.min() != a.max():
         nontriv = ('sc', dt, ba, len(shape), pi, ts, cs, layout)
     ctx.case(sample=case if (st == 'ok' and ctx.evaluations % 97 == 0) else None, nontrivial_key=nontriv, kind='sc',
-             dtype=dt, syntax=TSNAME[ts], outcome=outcome, valid=valid, bits=ba, cs=cs)
+             dtype=dt, syntax=TSNAME[ts], outcome=outcome, valid=valid, bits=ba, cs=cs, spelling=spell)
     if reqs is not None:
         reqs.append(('scPixelModule', {'dtype': str(a.dtype), 'ba': ba, 'ndim': a.ndim, 'last': a.shape[-1] if a.ndim else 0,
                                        'pi': pi, 'ts': ts, 'max': int(a.max()) if a.dtype.kind in 'biu' else 0}))
@@ -840,6 +859,11 @@ def _check_sc(ctx, label, dt, ba, shape, pi, ts, cs, idx, layout='c', big_values
                          'sc-module')
         else:
             ctx.fail(case, f'image pixel module attributes do not describe the array: {seen}', site='sc-module')
+    # what belongs to the coordinate system (either spelling of the argument)
+    if cs == 'PATIENT' and [str(v) for v in ds.get('PatientOrientation', [])] != ['L', 'P']:
+        ctx.fail(case, f"patient orientation not stored: {ds.get('PatientOrientation')}", site='sc-module')
+    if cs == 'SLIDE' and str(ds.get('ContainerIdentifier', '')) != 'c1':
+        ctx.fail(case, 'container identifier not stored', site='sc-module')
     if cs == 'SLIDE' and 'issuer_of_container_identifier' in kw and len(ds.IssuerOfTheContainerIdentifierSequence) != 1:
         ctx.fail(case, 'issuer of the container identifier not stored', site='sc-module')
 
